@@ -45,6 +45,7 @@ type cop struct {
 func genCluster(t *rapid.T, p *plan) {
 	p.Mode = "cluster"
 	p.RaftSnap = rapid.SampledFrom([]int{0, 2, 4, 9}).Draw(t, "c.raftsnap")
+	p.Shrink = rapid.SampledFrom([]int{0, 0, 1, 2}).Draw(t, "c.shrink")
 	n := rapid.IntRange(3, 18).Draw(t, "c.nops")
 	for i := 0; i < n; i++ {
 		l := fmt.Sprintf("c.op%d", i)
@@ -648,6 +649,100 @@ func execCluster(run *core.Run, p *plan) {
 		}
 	}
 	run.Probe("cluster-converged")
+	// Shrinking the cluster: followers are removed one at a time through the
+	// /remove endpoint (what the control tool's remove-meta does), down to two
+	// nodes or to one. Nothing that was acknowledged may be lost on the nodes
+	// that stay, and they must still take a new change.
+	remaining := append([]*mnode(nil), c.nodes...)
+	for k := 0; k < p.Shrink && len(remaining) > 1; k++ {
+		leader := ""
+		for _, m := range remaining {
+			b, code, err := c.get(fmt.Sprintf("http://%s/status", m.http))
+			var st meta.MetaNodeStatus
+			if err == nil && code == 200 && json.Unmarshal(b, &st) == nil && st.Leader != "" {
+				leader = st.Leader
+				break
+			}
+		}
+		var victim, via *mnode
+		for _, m := range remaining {
+			if m.raft != leader && victim == nil {
+				victim = m
+			} else if via == nil {
+				via = m
+			}
+		}
+		if leader == "" || victim == nil || via == nil {
+			run.Fail("no-progress-after-heal", "shrink", "no leader is reported by the healthy cluster before a meta node is removed\n%s", c.nodeStates())
+			return
+		}
+		resp, err := c.hc.Post(fmt.Sprintf("http://%s/remove?httpAddr=%s", via.http, victim.http), "application/x-www-form-urlencoded", nil)
+		if err != nil {
+			run.Fail("meta-node-removal-failed", "", "remove of meta node %d asked of meta node %d: %v\n%s", victim.id, via.id, err, c.nodeStates())
+			return
+		}
+		b, _ := io.ReadAll(resp.Body)
+		resp.Body.Close()
+		if resp.StatusCode != 204 {
+			run.Fail("meta-node-removal-failed", "", "remove of meta node %d asked of meta node %d in a healthy cluster: status %d %s\n%s", victim.id, via.id, resp.StatusCode, strings.TrimSpace(string(b)), c.nodeStates())
+			return
+		}
+		run.Logf("meta node %d removed through meta node %d", victim.id, via.id)
+		run.Probe("meta-node-removed")
+		time.Sleep(5 * time.Second)
+		c.stop(victim)
+		var rest []*mnode
+		var servers []string
+		for _, m := range remaining {
+			if m != victim {
+				rest = append(rest, m)
+				servers = append(servers, m.http)
+			}
+		}
+		remaining = rest
+		client.SetMetaServers(servers)
+		time.Sleep(10 * time.Second)
+		name := fmt.Sprintf("after-remove-%d", k)
+		err, ok := call("CreateDatabase("+name+")", func() error { _, err := client.CreateDatabase(name); return err })
+		if !ok {
+			return
+		}
+		if err != nil {
+			run.Fail("no-progress-after-heal", "shrink", "after meta node %d was removed from a healthy cluster a new command fails: %v\n%s", victim.id, err, c.nodeStates())
+			return
+		}
+		exists[name] = "yes"
+		time.Sleep(5 * time.Second)
+		for _, n := range remaining {
+			b, code, err := c.get(fmt.Sprintf("http://%s/?index=0", n.http))
+			var d meta.Data
+			if err != nil || code != 200 || d.UnmarshalBinary(b) != nil {
+				run.Fail("meta-node-unreadable-after-heal", "shrink", "snapshot of meta node %d after the removal of node %d: %v (status %d)", n.id, victim.id, err, code)
+				return
+			}
+			have := map[string]bool{}
+			for _, db := range d.Databases {
+				have[db.Name] = true
+			}
+			for name, st := range exists {
+				if st == "yes" && !tainted[name] && !have[name] {
+					run.Fail("acknowledged-change-lost", "database-after-node-removal", "after meta node %d was removed, meta node %d no longer has database %s, whose creation was acknowledged to the client (it serves index %d with %d databases)", victim.id, n.id, name, d.Index, len(d.Databases))
+					return
+				}
+			}
+			hu := map[string]bool{}
+			for _, u := range d.Users {
+				hu[u.Name] = true
+			}
+			for name, st := range users {
+				if st == "yes" && !hu[name] {
+					run.Fail("acknowledged-change-lost", "user-after-node-removal", "after meta node %d was removed, meta node %d no longer has user %s, whose creation was acknowledged to the client", victim.id, n.id, name)
+					return
+				}
+			}
+		}
+		run.Probe("cluster-verified-after-node-removal")
+	}
 	run.NonTrivial = run.Faults["meta-node-stopped"]+run.Faults["meta-node-unreachable"]+run.Faults["meta-node-partitioned"]+run.Faults["meta-node-slow"]+run.Faults["meta-node-lossy-link"] > 0
 	run.Digest = fmt.Sprintf("cluster/%d", len(p.Cluster))
 }
